@@ -2,7 +2,7 @@
 import random
 from fractions import Fraction
 from . import core, sketchcheck, wire
-from .sketchgen import Builder, mapspec, STORES, rand_values
+from .sketchgen import Builder, mapspec, STORES, rand_values, spec_list
 from .storegen import Shadow
 from .c06 import split_kobs, parse_obs
 from .core import f2h
@@ -106,7 +106,7 @@ def build_exact_into_plain(rng, facts, name):
 def run(tier, seed):
     rng = random.Random(seed)
     ok, log = core.build_vrun()
-    specs = [mapspec(rng)[0] for _ in range(10 if tier == "quick" else 40)]
+    specs = spec_list(rng, 10 if tier == "quick" else 40)
     facts = sketchcheck.learn_specs("C07", specs) if ok else {}
     n = 300 if tier == "quick" else 8000
     builders = ([build_streams(rng, facts, "g%d" % i) for i in range(n)] + [build_exact_into_plain(rng, facts, "x%d" % i) for i in range(n // 3)]) if facts else []
